@@ -16,6 +16,11 @@ type sig struct {
 	// TaintedOuts: outputs whose value is (built from) the merged outputs
 	// of a mapped call.
 	TaintedOuts map[string]bool
+	// ConstOuts: some output is bound to a constant.  Mapping such a pipeline
+	// over a collection sized at run time inside another mapped pipeline
+	// loses the copies (recorded finding), so the main stream only maps it
+	// over literal collections.
+	ConstOuts bool
 }
 
 // A source is tainted when its value is (built from) the merged outputs of
@@ -538,6 +543,9 @@ func (g *G) genPipeline(name string, callables []sig) (*Pipeline, sig) {
 		if c.Mapped != "" || callee.HasMap {
 			me.HasMap = true
 		}
+		if callee.ConstOuts {
+			me.ConstOuts = true // conservatively: it may return the callee's constant
+		}
 		if c.Mapped != "" && callee.HasMap {
 			g.Stats["nested_map_call"]++
 		}
@@ -572,6 +580,9 @@ func (g *G) genPipeline(name string, callables []sig) (*Pipeline, sig) {
 		}
 		name := fmt.Sprintf("r%d", i)
 		me.TaintedOuts[name] = tainted
+		if !hasAnyRef(e) {
+			me.ConstOuts = true
+		}
 		p.Outs = append(p.Outs, Field{name, t})
 		p.Ret = append(p.Ret, Bind{Param: name, E: e})
 	}
@@ -595,6 +606,21 @@ func (g *G) genPipeline(name string, callables []sig) (*Pipeline, sig) {
 	g.structs[name] = p.Outs
 	me.Ins, me.Outs = p.Ins, p.Outs
 	return p, me
+}
+
+func hasAnyRef(e *Exp) bool {
+	if e == nil {
+		return false
+	}
+	if e.K == "ref" {
+		return true
+	}
+	for _, x := range e.Items {
+		if hasAnyRef(x) {
+			return true
+		}
+	}
+	return false
 }
 
 // expTainted: does the expression mention a tainted source?
